@@ -50,7 +50,7 @@ CLAUSES = {
     "bytes or memoryviews of any size": "tie only: memoryview formats/offsets are exercised by the correspondence stream",
 }
 PARALLEL = False      # 3000 cases take ~6 s serially; forking a pool costs more than it saves
-CASE_TIMEOUT = 30
+CASE_TIMEOUT = 60
 LEVEL_NOTE = "model of _StreamBuffer + write/_handle_write; all theorems universally quantified over op sequences and send scripts"
 
 BIG = 1000000
